@@ -9,6 +9,7 @@ use std::sync::atomic::{AtomicU64, AtomicU8, Ordering};
 pub static HEAP_FILL: AtomicU8 = AtomicU8::new(0);
 pub static HEAP_FILLED_BLOCKS: AtomicU64 = AtomicU64::new(0);
 
+#[cfg_attr(miri, allow(dead_code))]
 pub struct FillAlloc;
 // SAFETY: forwards to `System`; additionally writes into blocks it has just obtained from, or is
 // about to return to, `System` — memory this allocator owns at that moment.
